@@ -1,5 +1,5 @@
 import Qryn.Proofs.LogQLMetric
-import Qryn.Proofs.MetricUnion
+import Qryn.Proofs.MetricUnwrap
 /-! # C08 — the SQL generated for LogQL metric queries computes the defined aggregates
 
 Model: `LogQL.planMetric` (tied byte-for-byte to the real planner's SQL text by the `text` stream, its step
@@ -403,12 +403,30 @@ theorem plan_metric_correct (o : Oracles) (c : MCtx) (hn : c.namesOk) (d : LokiD
     (evalSelA o (d.toDbM c) (planMetric c q)).map normRow = evalMetric o c d q :=
   planMetric_correct o c hn d q hsup hsc
 
-/-- the full statement of the property for *every* query of the modelled fragment (also unwrapped range aggregations and
-    vector aggregations without grouping clause). Not proved: `vector_agg_ungrouped_counterexample` refutes it for
-    ungrouped aggregations (finding C08/agg-without-grouping-keeps-streams); the unwrap functions are proved stage by
-    stage (`range_fn_unwrap`, `grouping_fingerprint_recomputed_simple`) and searched at plan level by the `sem` stream
-    (the plan orders the entries by timestamp before grouping, the direct reading keeps table order: equal only after
-    the final ORDER BY, for distinct timestamps). -/
+/-- **plan_metric_correct for unwrapped range aggregations** (`supportedU`: rate, sum/avg/min/max/first/last_over_time
+    over `| unwrap <label>` or `| unwrap _entry`, with or without a grouping clause on the range aggregation; alone,
+    under a grouped vector aggregation, under topk/bottomk, comparisons anywhere, any step). The plan orders `main` by
+    timestamp before `LabelsJoinPlanner`, `UnwrapPlanner`, `ByWithoutPlanner.processSimple` and `UnwrapFunctionPlanner`
+    group it; so what the statement returns is the matrix of the direct reading over the entries **taken in timestamp
+    order** (`sortedDb`: the same database with `samples` read in timestamp order): the series, buckets and values of
+    sum/avg/min/max/rate do not depend on that order, first/last_over_time among entries of equal timestamp and the
+    order of first occurrence of the series do. -/
+theorem plan_metric_correct_unwrap (o : Oracles) (c : MCtx) (hn : c.namesOk) (d : LokiDb) (q : MetricQuery)
+    (hsup : supportedU q = true) :
+    (evalSelA o (d.toDbM c) (planMetric c q)).map normRow = evalMetric o c (sortedDb c.toCtx d) q :=
+  planMetric_unwrap_supported o c hn d q hsup
+
+/-- …and when the table is stored in that order, of the direct reading itself -/
+theorem plan_metric_correct_unwrap_sorted (o : Oracles) (c : MCtx) (hn : c.namesOk) (d : LokiDb) (q : MetricQuery)
+    (hsup : supportedU q = true) (hsorted : sortBy (tsLe c.toCtx) d.samples = d.samples) :
+    (evalSelA o (d.toDbM c) (planMetric c q)).map normRow = evalMetric o c d q := by
+  rw [planMetric_unwrap_supported o c hn d q hsup, sortedDb_of_sorted c.toCtx d hsorted]
+
+/-- the full statement of the property for *every* query of the modelled fragment and every table order (also
+    vector aggregations without grouping clause, and unwrapped range aggregations over a table that is not stored in
+    timestamp order). Not proved: `vector_agg_ungrouped_counterexample` refutes it for ungrouped aggregations (finding
+    C08/agg-without-grouping-keeps-streams); for unwrap it holds only after the final ORDER BY and for pairwise distinct
+    timestamps — `plan_metric_correct_unwrap` is the proved form, the `sem` stream searches this one. -/
 def plan_metric_correct_full : Prop :=
   ∀ (o : Oracles) (c : MCtx) (d : LokiDb) (q : MetricQuery), c.namesOk → q.rangeAgg.sel.matchers.length ≤ 63 →
     1000000 ∣ q.rangeAgg.durNs → 0 < q.rangeAgg.durNs → ShortcutOk o d q →
@@ -449,6 +467,9 @@ example : supported (.topk ⟨true, 2, .agg ⟨.sum, some ⟨true, ["a"]⟩, ⟨
     some ⟨.gt, ⟨1, []⟩⟩⟩, none⟩) = true := by decide
 example : supported (.agg ⟨.count, none, ⟨.lra .bytesOverTime, ⟨[], []⟩, 7000000000, none, none, none⟩, some ⟨false, ["x"]⟩, none⟩) = true := by decide
 example : supported (.agg ⟨.sum, none, ⟨.lra .rate, ⟨[], []⟩, 5000000000, none, none, none⟩, none, none⟩) = false := by decide
+example : supportedU (.agg ⟨.max, some ⟨true, ["a"]⟩, ⟨.unwrap .firstOT "x", ⟨[], []⟩, 10000000000, none, some ⟨false, ["b"]⟩, none⟩, none, none⟩) = true := by decide
+example : supportedU (.range ⟨.unwrap .stddevOT "x", ⟨[], []⟩, 10000000000, none, none, none⟩) = false := by decide
+example (c : Ctx) : sortBy (tsLe c) ([] : List Sample) = [] := rfl
 example (o : Oracles) (q : MetricQuery) : ShortcutOk o ⟨[], [], []⟩ q := ⟨by simp, by simp⟩
 example (lo hi : Int) : SameInside ⟨[], [], [⟨1, lo - 1, [], 1⟩]⟩ ⟨[], [], []⟩ lo hi := by
   refine ⟨rfl, rfl, ?_⟩
